@@ -197,6 +197,14 @@ pub fn unhex(s: &str) -> Option<Vec<u8>> {
     (0..s.len()).step_by(2).map(|i| u8::from_str_radix(s.get(i..i + 2)?, 16).ok()).collect()
 }
 
+/// development aid: what a raw input of `fz_hostile` decodes to
+pub fn describe_hostile(data: &[u8]) -> String {
+    match HOSTILE.with(|s| from_bytes(s, data)) {
+        Some((e, ctx, _)) => format!("expression: {}\ncontext: {}", print(&e, Mode::Minimal), ctx_to_json(&ctx).to_string().chars().take(1500).collect::<String>()),
+        None => "does not decode".to_string(),
+    }
+}
+
 /// replay of a raw fuzz input (case kind `fuzz_bytes`)
 pub fn replay_bytes(prop: &str, case: &J) -> Option<Check> {
     if case.get("kind")?.as_str()? != "fuzz_bytes" {
